@@ -305,7 +305,7 @@ def exhaustive_programs(natoms, ntasks):
 
 
 # ------------------------------------------------------------------------------ running both sides
-def run_impl(impl_dir, prog, timeout=10, clock=True):
+def run_impl(impl_dir, prog, timeout=10, clock=True, max_chars=None):
     """Merged stdout+stderr lines of the implementation on the program (CBV_SCHED flushes stdout
     before every trace line, so one pipe for both keeps the true order)."""
     d = tempfile.mkdtemp(prefix="c15run-", dir=common.SCRATCH_ROOT)
@@ -324,7 +324,7 @@ def run_impl(impl_dir, prog, timeout=10, clock=True):
                                stdout=subprocess.PIPE, stderr=subprocess.STDOUT)
             rc, out = r.returncode, r.stdout.decode("utf-8", "replace")
         except subprocess.TimeoutExpired as e:
-            rc, out = 124, (e.stdout or b"").decode("utf-8", "replace")
+            rc, out = 124, (e.stdout or b"")[:max_chars].decode("utf-8", "replace")
         return rc, (out.split("\n")[:-1] if out.endswith("\n") else (out.split("\n") if out else []))
     finally:
         shutil.rmtree(d, ignore_errors=True)
@@ -513,6 +513,9 @@ def replay_finding(f, impl_dir):
             elif seen_done and l in ("CBV requeue " + waiter, "CBV complete " + waiter):
                 break
         return spins > 1, nl
+    if f["replay"]["kind"] == "hang":
+        rc, lines = run_impl(impl_dir, prog, timeout=3)
+        return rc == 124, None
     return False, nl
 
 
@@ -524,7 +527,9 @@ def compare_batch(progs, impl_dir):
     killed process may have lost) so that `m == il` means "agree on everything observable"."""
     models = run_model(progs)
     splits = [split_model(ml) for ml in models]
-    impls = common.pmap(lambda pf: run_impl(impl_dir, pf[0], timeout=(3 if "#CAP" in pf[1][1] else 10)), list(zip(progs, splits)))
+    # a program the model cannot finish must hang: 1.5 s of the endless trace is enough (and is cut to 3 MB)
+    impls = common.pmap(lambda pf: run_impl(impl_dir, pf[0], timeout=(1.5 if "#CAP" in pf[1][1] else 10), max_chars=3000000),
+                        list(zip(progs, splits)))
     res = []
     for p, (m, flags), (rc, il) in zip(progs, splits, impls):
         nl, vals = normalise(il)
@@ -706,9 +711,12 @@ def run(rep):
     # (6) known findings
     for f in common.known_findings(PROP):
         still, nl = replay_finding(f, impl_dir)
-        (ml,) = run_model([f["replay"]["program"]])
-        m, fl = split_model(ml)
-        m, nl = canon(m), canon(nl)
+        if nl is None:          # a hang: prefix comparison is done by compare_batch
+            (p_, m, fl, nl, vals_, rc_), = compare_batch([f["replay"]["program"]], impl_dir)
+        else:
+            (ml,) = run_model([f["replay"]["program"]])
+            m, fl = split_model(ml)
+            m, nl = canon(m), canon(nl)
         if still:
             rep.known(f["id"], f["what_fails"])
         else:
